@@ -68,7 +68,7 @@ def run(chk, replay=None):
     # a two-resonance four-body topology (ab)(cd) with both resonances carrying spin: both children of the
     # first node decay further, their helicity frames must turn consistently under a rotation
     tries = 0
-    while tries < 600:
+    while tries < 5000:
         tries += 1
         spec = U.synth_spec(rng, nfs=4, formalism="helicity", helset="full", maxspin2=2, ntop=1)
         if spec is None or len(spec["transitions"]) > 40:
@@ -76,6 +76,7 @@ def run(chk, replay=None):
         tree = spec["meta"]["tree"]
         inner = [s_ for s_ in tree if 1 < len(s_) < 4]
         if len(inner) == 2 and all(len(s_) == 2 for s_ in inner) and all(d["spin2"] >= 2 for n_, d in spec["particles"].items() if n_.startswith("R")) \
+                and spec["particles"]["A"]["spin2"] >= 2 \
                 and all(d["mass"] > 0 for n_, d in spec["particles"].items() if n_.startswith("f")):
             cases.append((("synth", spec), ["none"]))
             break
